@@ -207,6 +207,10 @@ U_C13 == TLCEval(<<
   C13Cfg(<< Pat(Alt(A1, A1), 1), Pat(Cat(A1, A2), 2), Pat(A2, 3), Pat(A12, 4) >>, << <<3, 1>> >>, "A", C13BasePatsB, << <<3, 0>> >>),
   \* does not build: a syntax error; an unsupported construct in the SECOND mode (the first
   \* mode has been compiled when the error is found) and in a lookahead
+  \* two modes with the same patterns and different transitions (a compilation shared between
+  \* modes must not share the transitions)
+  [modes |-> << Mode("A", C13BasePatsA, << <<3, 1>> >>), Mode("B", C13BasePatsA, << <<1, 0>>, <<4, 1>> >>) >>],
+  [modes |-> << Mode("A", C13BasePatsA, << <<3, 1>> >>), Mode("B", C13BasePatsA, << <<3, 2>> >>), Mode("C", C13BasePatsB, << <<3, 0>> >>) >>],
   \* unrelated configurations with fewer and with more modes
   OneMode(<< Pat(A12, 4), Pat(A1, 1) >>),
   OneMode(C13BasePatsA),
